@@ -14,6 +14,9 @@ CONSTANTS
   CraftToks = {"TA", "TV2"}
   MaxPresent = 2
   Calls = {"exchange", "disconnect", "leave"}
+  HealRounds = 0
+  HealDt = 250
+  Bound = 0
   PropsOn <- P_HS
   Export = TRUE
   ExportAll = FALSE
